@@ -95,6 +95,12 @@ pub enum Call {
     /// slice_some(v, p) with p a fixed hash of (seed, from, to, label) accepting about half
     /// of the edges: observed, then discarded
     SliceSome(usize, u16),
+    /// g.save(scratch path): a checkpoint is written from this very object and the work goes on
+    /// with it (the file is discarded)
+    Checkpoint,
+    /// slice(v) whatever v reaches — also through edges that dangle since their target was
+    /// collected: observed (keys and kids of the result), never predicted; a panic closes the case
+    SliceAny(usize),
     /// other = Sodg::empty(cap) with the given vertices added; other.clone_from(&g); g = other
     CloneInto {
         cap: usize,
@@ -136,6 +142,8 @@ impl Call {
             Call::RefreshSnapshot => "snapshot.clone_from(&g); g=snapshot".into(),
             Call::Slice(v) => format!("slice({v})"),
             Call::SliceSome(v, p) => format!("slice_some({v},p#{p})"),
+            Call::SliceAny(v) => format!("slice({v}) [through dangling edges too]"),
+            Call::Checkpoint => "g.save(scratch)".into(),
             Call::CloneInto { cap, ids } => format!("other=empty({cap})+{ids:?}; other.clone_from(&g); g=other"),
             Call::Merge { h, left } => format!(
                 "merge(h[{}],left={left},right={})",
